@@ -458,3 +458,147 @@ Proof.
 Qed.
 
 End HierProofs.
+
+(* ------------------------------------------------------------------ polygons: composition by hand *)
+Definition pshape_is (tag : N) (pts : polygon) (s : polygon * N) (A : aff) : Prop :=
+  snd s = tag /\ poly_eq (fst s) (map (aff_apply A) pts).
+
+Lemma poly_apply_twice T1 T2 pts :
+  poly_eq (poly_apply T1 (poly_apply T2 pts))
+          (map (aff_apply (aff_compose (placement_map T1) (placement_map T2))) pts).
+Proof.
+  unfold poly_apply.
+  eapply poly_eq_trans; [apply polygon_transform_affine_lemma|].
+  eapply poly_eq_trans; [|apply map_aff_compose].
+  apply map_poly_eq; [|apply polygon_transform_affine_lemma].
+  intros p q H. apply aff_apply_proper; [reflexivity|exact H].
+Qed.
+
+(* a polygon two references down: top --(P1, rep1)--> mid --(P2, rep2)--> leaf.  Every shape the
+   top cell denotes is the polygon moved by the product of the two matrices (each reference
+   contributes translate(offset) . placement_map), one shape per pair of offsets. *)
+Theorem compose_by_hand_lemma P1 rep1 P2 rep2 pts tag :
+  let leaf := Cell [El pts tag None] [] in
+  let mid := Cell [] [Ref 2%N P2 rep2] in
+  let top := Cell [] [Ref 1%N P1 rep1] in
+  let ev := [(0%N, top); (1%N, mid); (2%N, leaf)] in
+  Forall2 (pshape_is tag pts)
+          (denote_d polygon poly_apply poly_shift 2 ev top)
+          (flat_map (fun T1 => map (fun T2 => aff_compose (placement_map T1) (placement_map T2))
+                                   (ref_placements (Ref 2%N P2 rep2)))
+                    (ref_placements (Ref 1%N P1 rep1))).
+Proof.
+  intros leaf mid top ev. subst leaf mid top ev.
+  cbn [denote_d c_elems c_refs flat_map lookup r_target N.eqb Pos.eqb app elem_shapes e_rep shape_of e_payload e_tag].
+  rewrite !app_nil_r.
+  generalize (ref_placements (Ref 1%N P1 rep1)) as L1. generalize (ref_placements (Ref 2%N P2 rep2)) as L2.
+  intros L2 L1. induction L1 as [|T1 L1 IH]; simpl; [constructor|].
+  apply Forall2_app; [|exact IH].
+  clear IH. induction L2 as [|T2 L2 IH]; simpl; [constructor|].
+  constructor; [|exact IH].
+  split; [reflexivity|]. simpl. apply poly_apply_twice.
+Qed.
+
+(* the placements of a repeated reference are translate(offset) after the placement *)
+Lemma ref_placements_maps r :
+  Forall2 (fun T o => aff_eq (placement_map T) (aff_compose (translate_map o) (placement_map (r_place r))))
+          (ref_placements r)
+          (match r_rep r with None => [vzero] | Some l => vzero :: l end).
+Proof.
+  unfold ref_placements. destruct (r_rep r) as [l|].
+  - constructor.
+    + unfold placement_map, aff_compose, translate_map, vzero; repeat split; simpl; ring.
+    + induction l; simpl; constructor; auto. apply placement_shift_map.
+  - constructor; [|constructor].
+    unfold placement_map, aff_compose, translate_map, vzero; repeat split; simpl; ring.
+Qed.
+
+(* and the same through Reference::transform: the placement of the inner reference seen from the
+   top is placement_transform T1 T2 (C10: reference_transform_compose_lemma) *)
+Corollary compose_by_hand_placement T1 T2 pts :
+  poly_eq (poly_apply T1 (poly_apply T2 pts)) (poly_apply (placement_transform T1 T2) pts).
+Proof.
+  eapply poly_eq_trans; [apply poly_apply_twice|].
+  apply poly_eq_sym. unfold poly_apply.
+  eapply poly_eq_trans; [apply polygon_transform_affine_lemma|].
+  apply map_pointwise. intros p. apply aff_apply_proper; [apply reference_transform_compose_lemma|reflexivity].
+Qed.
+
+(* ------------------------------------------------------------------ F8: repetitions left attached *)
+(* leaf: unit square repeated at (5,0); top references leaf rotated by 90 degrees *)
+Definition f8_leaf : celldef polygon := Cell [El [V2 0 0; V2 1 0; V2 1 1; V2 0 1] 7%N (Some [V2 5 0])] [].
+Definition f8_top : celldef polygon := Cell [] [Ref 1%N (Pl vzero a90 1 false) None].
+Definition f8_env : env polygon := [(0%N, f8_top); (1%N, f8_leaf)].
+
+Definition shape_eqb (a b : polygon * N) : bool := list_eqb veqb (fst a) (fst b) && N.eqb (snd a) (snd b).
+Definition shape_eq (a b : polygon * N) : Prop := poly_eq (fst a) (fst b) /\ snd a = snd b.
+Lemma shape_eqb_complete a b : shape_eq a b -> shape_eqb a b = true.
+Proof.
+  intros [H1 H2]. unfold shape_eqb. rewrite H2, N.eqb_refl, andb_true_r.
+  apply (list_eqb_complete veq); [apply veqb_complete|exact H1].
+Qed.
+
+Example f8_height : height_le polygon f8_env 1 f8_top.
+Proof. intros r c' [<-|[]] E. vm_compute in E. injection E as <-. intros r []. Qed.
+
+(* with apply_repetitions = false the returned element keeps the offset (5,0) although its
+   vertices were rotated: the shape (0,5),(0,6),(-1,6),(-1,5) that the cell denotes is not among
+   the shapes the result describes (it describes (5,0),(5,1),(4,1),(4,0) instead) *)
+Theorem get_unapplied_refuted :
+  exists (ev : env polygon) c n l s,
+    height_le polygon ev n c /\
+    cell_get polygon poly_apply poly_shift (S n) ev false (-1) None c = Some l /\
+    In s (denote_d polygon poly_apply poly_shift n ev c) /\
+    forall s', In s' (expand polygon poly_shift l) -> ~ shape_eq s s'.
+Proof.
+  exists f8_env, f8_top, 1%nat.
+  eexists. exists (nth 1 (denote_d polygon poly_apply poly_shift 1 f8_env f8_top) ([], 0%N)).
+  split; [apply f8_height|].
+  split; [vm_compute; reflexivity|].
+  split.
+  - vm_compute. right. left. reflexivity.
+  - intros s' Hs' Heq. apply shape_eqb_complete in Heq.
+    vm_compute in Hs'. destruct Hs' as [<-|[<-|[]]]; vm_compute in Heq; discriminate.
+Qed.
+
+(* the same after Cell::flatten(apply_repetitions = false) *)
+Theorem flatten_unapplied_refuted :
+  exists (ev : env polygon) c n s,
+    height_le polygon ev (S n) c /\
+    In s (denote_d polygon poly_apply poly_shift (S n) ev c) /\
+    forall s', In s' (denote_d polygon poly_apply poly_shift 0 ev (flatten_d polygon poly_apply poly_shift n ev false c)) ->
+               ~ shape_eq s s'.
+Proof.
+  exists f8_env, f8_top, 0%nat.
+  exists (nth 1 (denote_d polygon poly_apply poly_shift 1 f8_env f8_top) ([], 0%N)).
+  split; [apply f8_height|].
+  split.
+  - vm_compute. right. left. reflexivity.
+  - intros s' Hs' Heq. apply shape_eqb_complete in Heq.
+    vm_compute in Hs'. destruct Hs' as [<-|[<-|[]]]; vm_compute in Heq; discriminate.
+Qed.
+
+(* where a reference does not rotate, reflect or magnify, leaving the repetition attached is
+   harmless: the witness needs a non-trivial linear part *)
+Example get_unapplied_translation_only_ok :
+  let top := Cell [] [Ref 1%N (Pl (V2 3 4) azero 1 false) None] in
+  let ev := [(0%N, top); (1%N, f8_leaf)] in
+  map (fun s => (polyred (fst s), snd s)) (expand polygon poly_shift (cell_get_d polygon poly_apply poly_shift 1 ev false None top)) =
+  map (fun s => (polyred (fst s), snd s)) (denote_d polygon poly_apply poly_shift 1 ev top).
+Proof. vm_compute. reflexivity. Qed.
+
+(* ------------------------------------------------------------------ assumptions *)
+Print Assumptions cell_get_depth_lemma.
+Print Assumptions cell_get_unlimited_lemma.
+Print Assumptions depth_saturates_lemma.
+Print Assumptions filter_is_filter_lemma.
+Print Assumptions depth_cut_lemma.
+Print Assumptions get_applied_is_denote_lemma.
+Print Assumptions get_depth_is_truncation_lemma.
+Print Assumptions flatten_no_cell_refs_lemma.
+Print Assumptions flatten_preserves_denote_lemma.
+Print Assumptions flatten_fuel_lemma.
+Print Assumptions compose_by_hand_lemma.
+Print Assumptions compose_by_hand_placement.
+Print Assumptions get_unapplied_refuted.
+Print Assumptions flatten_unapplied_refuted.
